@@ -86,14 +86,28 @@ def make(case, path, rng):
     DT = _dtypes()
     keys = sorted(DT)
     dtype = DT[keys[case['dt'] % len(keys)]]
+    # every third handle is configured twice: a first header (other sizes) is set and the derived sizes are queried, as a caller
+    # estimating the output volume would, before the header that is actually written replaces it
+    twice = case['seed'] % 3 == 0
+
+    def ask(h):
+        return (h.hSize, h.itemSize, h.tSize, h.fSize, h.nItems)
+
     if case['struct'] == 'Scalar':
         f = Scalar(dtype, path)
+        if twice:
+            f.setHeader(nVar=case['nVar'] + 1 + case['seed'] % 4)
+            ask(f)
         f.setHeader(nVar=case['nVar'])
         shape = (case['nVar'],)
         hdr = dict(nVar=case['nVar'])
     else:
         coords = [np.sort(rng.uniform(-5, 5, n)) for n in case['sizes']]
         f = Rectilinear(dtype, path)
+        if twice:
+            other = [np.linspace(0, 1, n + 1 + (case['seed'] + j) % 5) for j, n in enumerate(case['sizes'])]
+            f.setHeader(nVar=case['nVar'] + case['seed'] % 2, coords=other)
+            ask(f)
         f.setHeader(nVar=case['nVar'], coords=coords)
         shape = (case['nVar'], *case['sizes'])
         hdr = dict(nVar=case['nVar'], coords=[c.copy() for c in coords])
